@@ -24,7 +24,7 @@ var issueToFinding = map[string]string{
 // where the model does not cover a program (unsupported), a compile failure is attributed by its message
 var compileErrToFinding = []struct{ pat, id string }{
 	{"undefined: netip", "K26-format-pointer-import"}, {"undefined: types", "K26-format-pointer-import"}, {"undefined: time", "K26-format-pointer-import"},
-	{"in argument to math.Mod", "K19-multipleOf-named-number"}, {"already declared", "K21-composite-definition"}, {"undefined: raw", "K24-addl-raw-undeclared"},
+	{"in argument to math.Mod", "K19-multipleOf-named-number"}, {"already declared", "K21-composite-definition"}, {"redeclared in this block", "K21-composite-definition"}, {"undefined: raw", "K24-addl-raw-undeclared"},
 	{"overflows", "K25-int-literal-overflow"},
 }
 
